@@ -30,7 +30,7 @@ structure InvC (jobs : List Job) (s : State) : Prop where
   prog : jobs = s.submitted ++ rest s
 
 theorem invC_init (jobs : List Job) : InvC jobs (init jobs) := by
-  unfold init; split <;> constructor <;> simp [rest, inHand, inHandL]
+  unfold init; split <;> constructor <;> simp [rest, inHand, inHandL, State.subs]
 
 theorem count_erase_of_mem (l : List Job) (a j : Job) (h : l.contains a = true) :
     (l.erase a).count j + (if a = j then 1 else 0) = l.count j := by
@@ -52,16 +52,9 @@ theorem count_erase_of_mem (l : List Job) (a j : Job) (h : l.contains a = true) 
 theorem inHandL_append (a b : List Sub) : inHandL (a ++ b) = inHandL a ++ inHandL b := by
   simp [inHandL]
 
-theorem inHandL_setLast (l : List Sub) (f : Sub → Sub) (hf : ∀ u, handOf (f u) = handOf u) :
-    inHandL (setLast l f) = inHandL l := by
-  induction l with
-  | nil => rfl
-  | cons x r ih =>
-    cases r with
-    | nil => simp [setLast, inHandL, hf]
-    | cons y r' =>
-      simp only [setLast, inHandL, List.map_cons, List.flatten_cons] at ih ⊢
-      rw [ih]
+theorem inHandL_toList_map (o : Option Sub) (f : Sub → Sub) (hf : ∀ u, handOf (f u) = handOf u) :
+    inHandL (o.map f).toList = inHandL o.toList := by
+  cases o <;> simp [inHandL, hf]
 
 theorem count_inHandL_set (l : List Sub) (k : Nat) (u u' : Sub) (j : Job) (h : l[k]? = some u) :
     (inHandL (l.set k u')).count j + (handOf u).count j = (inHandL l).count j + (handOf u').count j := by
@@ -87,7 +80,7 @@ theorem handOf_start (V : Variant) (u : Sub) :
 theorem finishS_cons (s : State) :
     (finishS s).submitted = s.submitted ∧ (finishS s).queue = s.queue ∧ (finishS s).pending = s.pending ∧
     inHand (finishS s) = inHand s ∧ (finishS s).reported = s.reported := by
-  unfold finishS; split <;> simp [inHand]
+  unfold finishS; split <;> simp [inHand, State.subs]
 
 theorem finishS_rest (s : State) (h : s.sph ≠ .ins) : rest (finishS s) = rest s := by
   unfold finishS; split <;> simp_all [rest]
@@ -117,32 +110,33 @@ theorem invC_stepS (V : Variant) (jobs : List Job) (s s' : State) (h : InvC jobs
     simp only [stepS] at hs
     split at hs
     · simp at hs; subst hs; constructor
-      · intro j; have := h1 j; simp only [inHand, List.count_append] at *; omega
+      · intro j; have := h1 j; simp only [inHand, State.subs, List.count_append] at *; omega
       · simp_all [rest]
     · split at hs
       · simp at hs; subst hs; constructor
-        · intro j; have := h1 j; simp only [inHand, List.count_append] at *; omega
+        · intro j; have := h1 j; simp only [inHand, State.subs, List.count_append] at *; omega
         · simp_all [rest]
       · simp at hs; subst hs; constructor
-        · intro j; have := h1 j; simp only [inHand, List.count_append] at *; omega
+        · intro j; have := h1 j; simp only [inHand, State.subs, List.count_append] at *; omega
         · simp_all [rest]
   case startSub =>
     simp only [stepS, Option.some.injEq] at hs; subst hs
     apply invC_finishS
     · simp
     · apply invC_congr jobs _ _ h <;> try rfl
-      · exact inHandL_setLast _ _ (handOf_start V)
+      · simp only [inHand, State.subs, inHandL_append]
+        rw [inHandL_toList_map _ _ (handOf_start V)]
   all_goals (simp only [stepS] at hs; repeat' split at hs)
   all_goals (try (simp only [Option.some.injEq, reduceCtorEq] at hs))
   all_goals (try subst hs)
   all_goals first
-    | (apply invC_finishS; (first | simp | skip); apply invC_congr jobs _ _ h <;> simp [inHand, rest, inHandL, handOf])
-    | (apply invC_congr jobs _ _ h <;> simp [inHand, rest, inHandL, handOf])
+    | (apply invC_finishS; (first | simp | skip); apply invC_congr jobs _ _ h <;> simp [inHand, rest, inHandL, handOf, State.subs])
+    | (apply invC_congr jobs _ _ h <;> simp [inHand, rest, inHandL, handOf, State.subs])
 
 set_option maxHeartbeats 2000000 in
-theorem stepMon_effect (V : Variant) (s s' : State) (k : Nat) (m m' : Mon) (hs : stepMon V s k m = some (s', m')) :
-    s'.submitted = s.submitted ∧ s'.queue = s.queue ∧ s'.subs = s.subs ∧ s'.sph = s.sph ∧ s'.cur = s.cur ∧
-    s'.todo = s.todo ∧
+theorem stepMon_effect (V : Variant) (s s' : State) (k : Bool) (m m' : Mon) (hs : stepMon V s k m = some (s', m')) :
+    s'.submitted = s.submitted ∧ s'.queue = s.queue ∧ s'.oldSubs = s.oldSubs ∧ s'.sub = s.sub ∧ s'.sph = s.sph ∧
+    s'.cur = s.cur ∧ s'.todo = s.todo ∧ s'.old = s.old ∧ s'.mon = s.mon ∧
     ((s'.pending = s.pending ∧ s'.reported = s.reported) ∨
      (∃ c, s.pending.contains c = true ∧ s'.pending = s.pending.erase c ∧ s'.reported = s.reported ++ [c])) := by
   obtain ⟨ph, iter, cur, idx⟩ := m
@@ -156,38 +150,57 @@ theorem stepMon_effect (V : Variant) (s s' : State) (k : Nat) (m m' : Mon) (hs :
   case proc =>
     split at hs
     · rename_i hc; simp at hs; obtain ⟨h1, h2⟩ := hs; subst h1
-      exact ⟨rfl, rfl, rfl, rfl, rfl, rfl, Or.inr ⟨cur, by simpa using hc, rfl, rfl⟩⟩
+      exact ⟨rfl, rfl, rfl, rfl, rfl, rfl, rfl, rfl, rfl, Or.inr ⟨cur, by simpa using hc, rfl, rfl⟩⟩
     · simp at hs; obtain ⟨h1, h2⟩ := hs; subst h1; simp
   all_goals ((repeat' split at hs) <;> simp at hs <;> (try (obtain ⟨h1, h2⟩ := hs; subst h1; simp)))
+
+theorem invC_of_monEffect (jobs : List Job) (s s'' t : State) (h : InvC jobs s)
+    (e : s''.submitted = s.submitted ∧ s''.queue = s.queue ∧ s''.oldSubs = s.oldSubs ∧ s''.sub = s.sub ∧ s''.sph = s.sph ∧
+      s''.cur = s.cur ∧ s''.todo = s.todo ∧ s''.old = s.old ∧ s''.mon = s.mon ∧
+      ((s''.pending = s.pending ∧ s''.reported = s.reported) ∨
+       (∃ c, s.pending.contains c = true ∧ s''.pending = s.pending.erase c ∧ s''.reported = s.reported ++ [c])))
+    (t1 : t.submitted = s''.submitted) (t2 : t.queue = s''.queue) (t3 : t.oldSubs = s''.oldSubs) (t4 : t.sub = s''.sub)
+    (t5 : t.sph = s''.sph) (t6 : t.cur = s''.cur) (t7 : t.todo = s''.todo) (t8 : t.pending = s''.pending)
+    (t9 : t.reported = s''.reported) : InvC jobs t := by
+  obtain ⟨e1, e2, e3, e3', e4, e5, e6, _, _, e7⟩ := e
+  refine ⟨?_, ?_⟩
+  · intro j
+    have := h.cons j
+    simp only [inHand, State.subs] at *
+    rw [t1, t2, t3, t4, t8, t9, e1, e2, e3, e3']
+    rcases e7 with ⟨p1, p2⟩ | ⟨c, hc, p1, p2⟩
+    · rw [p1, p2]; exact this
+    · rw [p1, p2]
+      have h3 := count_erase_of_mem s.pending c j hc
+      simp only [List.count_append, List.count_cons, List.count_nil]
+      by_cases hcj : c = j
+      · subst hcj; simp at h3 ⊢; omega
+      · have : (c == j) = false := by simp [hcj]
+        simp [hcj, this] at h3 ⊢; omega
+  · have := h.prog
+    simp only [rest] at *
+    rw [t1, t5, t6, t7, e1, e4, e5, e6]; exact this
 
 theorem invC_stepM (V : Variant) (jobs : List Job) (s s' : State) (k : Nat) (h : InvC jobs s) (hs : stepM V s k = some s') :
     InvC jobs s' := by
   simp only [stepM] at hs
   split at hs
-  · simp at hs
   · rename_i m hk
     split at hs
     · simp at hs
     · rename_i s'' m' hm
       simp at hs; subst hs
-      obtain ⟨e1, e2, e3, e4, e5, e6, e7⟩ := stepMon_effect V s s'' k m m' hm
-      refine ⟨?_, ?_⟩
-      · intro j
-        have := h.cons j
-        simp only [inHand] at *
-        rw [e1, e2, e3]
-        rcases e7 with ⟨p1, p2⟩ | ⟨c, hc, p1, p2⟩
-        · rw [p1, p2]; exact this
-        · rw [p1, p2]
-          have h3 := count_erase_of_mem s.pending c j hc
-          simp only [List.count_append, List.count_cons, List.count_nil]
-          by_cases hcj : c = j
-          · subst hcj; simp at h3 ⊢; omega
-          · have : (c == j) = false := by simp [hcj]
-            simp [hcj, this] at h3 ⊢; omega
-      · have := h.prog
-        simp only [rest] at *
-        rw [e1, e4, e5, e6]; exact this
+      exact invC_of_monEffect jobs s s'' _ h (stepMon_effect V s s'' false m m' hm) rfl rfl rfl rfl rfl rfl rfl rfl rfl
+  · split at hs
+    · split at hs
+      · simp at hs
+      · rename_i m hmon
+        split at hs
+        · simp at hs
+        · rename_i s'' m' hm
+          simp at hs; subst hs
+          exact invC_of_monEffect jobs s s'' _ h (stepMon_effect V s s'' true m m' hm) rfl rfl rfl rfl rfl rfl rfl rfl rfl
+    · simp at hs
 
 theorem handOf_uNops_mid (r : List Lbl) (c : Job) : handOf { ph := uNops r .mid .promote, cur := c } = [c] := by
   unfold uNops; split <;> rfl
@@ -200,8 +213,8 @@ theorem handOf_uNops_sleep (r : List Lbl) (c : Job) : handOf { ph := uNops r .sl
 
 /-- effect of one submission-thread step on the job containers -/
 theorem stepSub_effect (V : Variant) (s s' : State) (u u' : Sub) (hs : stepSub V s u = some (s', u')) :
-    s'.submitted = s.submitted ∧ s'.reported = s.reported ∧ s'.subs = s.subs ∧ s'.sph = s.sph ∧ s'.cur = s.cur ∧
-    s'.todo = s.todo ∧
+    s'.submitted = s.submitted ∧ s'.reported = s.reported ∧ s'.oldSubs = s.oldSubs ∧ s'.sub = s.sub ∧ s'.sph = s.sph ∧
+    s'.cur = s.cur ∧ s'.todo = s.todo ∧
     ((s'.queue = s.queue ∧ s'.pending = s.pending ∧ handOf u' = handOf u) ∨
      (∃ c, s.queue = c :: s'.queue ∧ s'.pending = s.pending ∧ handOf u = [] ∧ handOf u' = [c]) ∨
      (∃ c, s'.queue = s.queue ∧ s'.pending = s.pending ++ [c] ∧ handOf u = [c] ∧ handOf u' = [])) := by
@@ -212,50 +225,80 @@ theorem stepSub_effect (V : Variant) (s s' : State) (u u' : Sub) (hs : stepSub V
     · simp at hs
     · rename_i j r hq
       simp at hs; obtain ⟨h1, h2⟩ := hs; subst h1; subst h2
-      refine ⟨rfl, rfl, rfl, rfl, rfl, rfl, Or.inr (Or.inl ⟨j, hq, rfl, rfl, handOf_uNops_mid _ _⟩)⟩
+      refine ⟨rfl, rfl, rfl, rfl, rfl, rfl, rfl, Or.inr (Or.inl ⟨j, hq, rfl, rfl, handOf_uNops_mid _ _⟩)⟩
   case promote =>
     simp at hs; obtain ⟨h1, h2⟩ := hs; subst h1; subst h2
-    exact ⟨rfl, rfl, rfl, rfl, rfl, rfl, Or.inr (Or.inr ⟨cur, rfl, rfl, rfl, handOf_uNops_post _ _⟩)⟩
+    exact ⟨rfl, rfl, rfl, rfl, rfl, rfl, rfl, Or.inr (Or.inr ⟨cur, rfl, rfl, rfl, handOf_uNops_post _ _⟩)⟩
   case mid r =>
     simp at hs; obtain ⟨h1, h2⟩ := hs; subst h1; subst h2
-    exact ⟨rfl, rfl, rfl, rfl, rfl, rfl, Or.inl ⟨rfl, rfl, handOf_uNops_mid _ _⟩⟩
+    exact ⟨rfl, rfl, rfl, rfl, rfl, rfl, rfl, Or.inl ⟨rfl, rfl, handOf_uNops_mid _ _⟩⟩
   all_goals ((repeat' split at hs) <;> simp at hs <;> (try (obtain ⟨h1, h2⟩ := hs; subst h1; subst h2)))
-  all_goals (refine ⟨rfl, rfl, rfl, rfl, rfl, rfl, Or.inl ⟨rfl, rfl, ?_⟩⟩)
+  all_goals (refine ⟨rfl, rfl, rfl, rfl, rfl, rfl, rfl, Or.inl ⟨rfl, rfl, ?_⟩⟩)
   all_goals (first | rfl | exact handOf_uNops_pre _ _ | exact handOf_uNops_post _ _ | exact handOf_uNops_sleep _ _)
+
+/-- conservation is kept when one submission thread `u` (whose hand is counted in `hand`) makes a step -/
+theorem invC_of_subEffect (jobs : List Job) (s s'' t : State) (u u' : Sub) (h : InvC jobs s)
+    (e : s''.submitted = s.submitted ∧ s''.reported = s.reported ∧ s''.oldSubs = s.oldSubs ∧ s''.sub = s.sub ∧ s''.sph = s.sph ∧
+      s''.cur = s.cur ∧ s''.todo = s.todo ∧
+      ((s''.queue = s.queue ∧ s''.pending = s.pending ∧ handOf u' = handOf u) ∨
+       (∃ c, s.queue = c :: s''.queue ∧ s''.pending = s.pending ∧ handOf u = [] ∧ handOf u' = [c]) ∨
+       (∃ c, s''.queue = s.queue ∧ s''.pending = s.pending ++ [c] ∧ handOf u = [c] ∧ handOf u' = [])))
+    (hset : ∀ j, (inHand t).count j + (handOf u).count j = (inHand s).count j + (handOf u').count j)
+    (t1 : t.submitted = s''.submitted) (t2 : t.queue = s''.queue) (t5 : t.sph = s''.sph) (t6 : t.cur = s''.cur)
+    (t7 : t.todo = s''.todo) (t8 : t.pending = s''.pending) (t9 : t.reported = s''.reported) : InvC jobs t := by
+  obtain ⟨e1, e2, _, _, e4, e5, e6, e7⟩ := e
+  refine ⟨?_, ?_⟩
+  · intro j
+    have h0 := h.cons j
+    have hs := hset j
+    rw [t1, t2, t8, t9, e1, e2]
+    rcases e7 with ⟨p1, p2, p3⟩ | ⟨c, p1, p2, p3, p4⟩ | ⟨c, p1, p2, p3, p4⟩
+    · rw [p1, p2]; rw [p3] at hs; omega
+    · rw [p2]; rw [p1] at h0; rw [p3, p4] at hs
+      simp only [List.count_cons, List.count_nil] at *; omega
+    · rw [p1, p2]; rw [p3, p4] at hs
+      simp only [List.count_append, List.count_cons, List.count_nil] at *; omega
+  · have := h.prog
+    simp only [rest] at *
+    rw [t1, t5, t6, t7, e1, e4, e5, e6]; exact this
 
 theorem invC_stepU (V : Variant) (jobs : List Job) (s s' : State) (k : Nat) (h : InvC jobs s) (hs : stepU V s k = some s') :
     InvC jobs s' := by
   simp only [stepU] at hs
   split at hs
-  · simp at hs
   · rename_i u hk
     split at hs
     · simp at hs
     · rename_i s'' u' hu
       simp at hs; subst hs
-      obtain ⟨e1, e2, e3, e4, e5, e6, e7⟩ := stepSub_effect V s s'' u u' hu
-      refine ⟨?_, ?_⟩
-      · intro j
-        have h0 := h.cons j
-        have hset := count_inHandL_set s.subs k u u' j hk
-        simp only [inHand] at *
-        rw [e1, e2, e3]
-        rcases e7 with ⟨p1, p2, p3⟩ | ⟨c, p1, p2, p3, p4⟩ | ⟨c, p1, p2, p3, p4⟩
-        · rw [p1, p2]; rw [p3] at hset; omega
-        · rw [p2]; rw [p1] at h0; rw [p3, p4] at hset
-          simp only [List.count_cons, List.count_nil] at *; omega
-        · rw [p1, p2]; rw [p3, p4] at hset
-          simp only [List.count_append, List.count_cons, List.count_nil] at *; omega
-      · have := h.prog
-        simp only [rest] at *
-        rw [e1, e4, e5, e6]; exact this
+      have e := stepSub_effect V s s'' u u' hu
+      refine invC_of_subEffect jobs s s'' _ u u' h e ?_ rfl rfl rfl rfl rfl rfl rfl
+      intro j
+      have hset := count_inHandL_set s.oldSubs k u u' j hk
+      simp only [inHand, State.subs, inHandL_append, List.count_append]
+      rw [e.2.2.1, e.2.2.2.1]; omega
+  · split at hs
+    · split at hs
+      · simp at hs
+      · rename_i u hsub
+        split at hs
+        · simp at hs
+        · rename_i s'' u' hu
+          simp at hs; subst hs
+          have e := stepSub_effect V s s'' u u' hu
+          refine invC_of_subEffect jobs s s'' _ u u' h e ?_ rfl rfl rfl rfl rfl rfl rfl
+          intro j
+          simp only [inHand, State.subs, inHandL_append, List.count_append]
+          rw [e.2.2.1, hsub]
+          simp [inHandL]; omega
+    · simp at hs
 
 theorem invC_stepA (jobs : List Job) (s s' : State) (h : InvC jobs s) (hs : stepA s = some s') : InvC jobs s' := by
   simp only [stepA] at hs
   split at hs
   · simp at hs; subst hs
     refine ⟨?_, ?_⟩
-    · intro j; have := h.cons j; simp only [inHand, List.count_append, List.count_nil] at *; omega
+    · intro j; have := h.cons j; simp only [inHand, State.subs, List.count_append, List.count_nil] at *; omega
     · exact h.prog
   · simp at hs
 
